@@ -13,6 +13,7 @@ import (
 	"verif/twin/c10d"
 	"verif/twin/c10e"
 	"verif/twin/c10f"
+	"verif/twin/c10g"
 )
 
 var c10Specs = []*twinSpec{
@@ -22,6 +23,7 @@ var c10Specs = []*twinSpec{
 	{Name: "c10d-shared-closures", Source: c10d.Source, Native: c10d.Main, Determinate: "="},
 	{Name: "c10e-timeouts", Source: c10e.Source, Native: c10e.Main, Determinate: "all"},
 	{Name: "c10f-select-kinds", Source: c10f.Source, Native: c10f.Main, Determinate: "all"},
+	{Name: "c10g-primitives", Source: c10g.Source, Native: c10g.Main, Determinate: "="},
 }
 
 func init() {
